@@ -279,8 +279,8 @@ Definition enc_typ (t : typ) : val := VN (typ_code t).
 
 (* ---- compact input constructors used by the generated correspondence cases --------------------- *)
 Definition M (isdir : bool) (size nfiles : option N) (isexec : bool) (md5 : option (list N))
-           (mtime : option N) : meta :=
-  mk_meta isdir size nfiles isexec None None None md5 None mtime None false None 1.
+           (mtime : option N) (etag : option (list N)) : meta :=
+  mk_meta isdir size nfiles isexec None etag None md5 None mtime None false None 1.
 Definition H (n v : option (list N)) : hashinfo := mk_hashinfo n v None.
 Definition E (m : option meta) (h : option hashinfo) : ientry :=
   mk_ientry None m h None.
@@ -292,12 +292,32 @@ Definition cmp_isdir_isexec : option meta -> N :=
            | Some x => 1 + (if m_isdir x then 2 else 0) + (if m_isexec x then 4 else 0)
            end.
 
+(* projections that are None for some existing Meta (the shape of push._meta_checksum):
+   meta_cmp_key = lambda m: m.etag if m else None   /   lambda m: m.md5 if m else None.
+   Python's None is 0 (so cmp(None) == cmp(Meta without the field)), a string s is 1 + an
+   injective code of s *)
+Definition enc_str (s : list N) : N := fold_right (fun c acc => (c + 1) + 1114113 * acc) 0 s.
+Definition proj_code (f : option (list N)) : N := match f with None => 0 | Some s => 1 + enc_str s end.
+Definition cmp_etag : option meta -> N := fun m => match m with None => 0 | Some x => proj_code (m_etag x) end.
+Definition cmp_md5 : option meta -> N := fun m => match m with None => 0 | Some x => proj_code (m_md5 x) end.
+
+(* cmp selector: 0 none, 1 (isdir, isexec), 2 etag only, 3 md5 only *)
+Definition cmp_of_sel (sel : N) : cmp_key :=
+  match sel with
+  | 0 => None
+  | 1 => Some cmp_isdir_isexec
+  | 2 => Some cmp_etag
+  | _ => Some cmp_md5
+  end.
+
 (* option sets as bit codes: 1 with_renames, 2 with_unchanged, 4 hash_only, 8 meta_only,
-   16 meta_cmp_key = (isdir, isexec), 32 shallow *)
+   16 meta_cmp_key = (isdir, isexec), 32 shallow, 64 meta_cmp_key = etag, 128 meta_cmp_key = md5
+   (16 wins over 64 over 128) *)
 Definition opts_of_code (c : N) : opts :=
   {| o_with_renames := N.testbit c 0; o_with_unchanged := N.testbit c 1; o_hash_only := N.testbit c 2;
      o_meta_only := N.testbit c 3;
-     o_meta_cmp_key := if N.testbit c 4 then Some cmp_isdir_isexec else None;
+     o_meta_cmp_key := cmp_of_sel (if N.testbit c 4 then 1 else if N.testbit c 6 then 2
+                                   else if N.testbit c 7 then 3 else 0);
      o_shallow := N.testbit c 5 |}.
 
 Definition run_diffs (old new : option index) (codes : list N) : val :=
@@ -306,14 +326,14 @@ Definition run_diffs (old new : option index) (codes : list N) : val :=
 Definition run_diffs_roots (old new : option index) (rs : list key) (codes : list N) : val :=
   VL (map (fun c => enc_dres (diff_roots (opts_of_code c) old new rs (fuel_for_roots old new rs))) codes).
 
-(* the deciders on one pair of entries under all 16 flag combinations
-   (bit 0 hash_only, 1 meta_only, 2 cmp_key, 3 unknown) *)
+(* the deciders on one pair of entries under all 32 flag combinations
+   (bit 0 hash_only, 1 meta_only, 2-3 cmp selector, 4 unknown) *)
 Definition run_diff_entry (old new : option ientry) : val :=
   VL (map (fun c => enc_typ (diff_entry old new (N.testbit c 0) (N.testbit c 1)
-                               (if N.testbit c 2 then Some cmp_isdir_isexec else None) (N.testbit c 3)))
-          [0;1;2;3;4;5;6;7;8;9;10;11;12;13;14;15]).
+                               (cmp_of_sel ((c / 4) mod 4)) (N.testbit c 4)))
+          [0;1;2;3;4;5;6;7;8;9;10;11;12;13;14;15;16;17;18;19;20;21;22;23;24;25;26;27;28;29;30;31]).
 Definition run_diff_meta (old new : option meta) : val :=
-  VL [enc_typ (diff_meta old new None); enc_typ (diff_meta old new (Some cmp_isdir_isexec))].
+  VL (map (fun sel => enc_typ (diff_meta old new (cmp_of_sel sel))) [0;1;2;3]).
 Definition run_diff_hash_info (old new : option hashinfo) : val := enc_typ (diff_hash_info old new).
 
 (* info / ls / has_node observed through the same encoding *)
